@@ -873,17 +873,30 @@ def circuit_case(rng, key, max_dim, lean_dim, grad_dim, do_fd,
                         + ' '.join(map(ptok, newp)) + ' | '
                         + ' '.join(map(str, rad)), 'tensors1', s2_impl,
                         'state-explicit')
-    # plain-vector in_state: radixes are inferred from the dimension
+    # plain-vector in_state: must be read with the circuit's radixes
     s3_impl = call(lambda: np.array(c.get_statevector(sv_np)))
     if s3_impl[0] == 'err' or not close(s3_impl[1], s_or):
-        uniform = all(r == 2 for r in rad) or all(r == 3 for r in rad)
         outcome = s3_impl[1] if s3_impl[0] == 'err' else 'wrong-amplitudes'
-        sig = ('statevector-plain-vector-mixed-radix:' + outcome
-               if not uniform else 'statevector-plain-vector-uniform')
-        case.problem(sig, 'get_statevector(ndarray) on a circuit with radixes '
-                     f'{rad}: {outcome} (StateVector(in_state) infers the '
-                     'radixes from the dimension instead of using the '
-                     'circuit radixes)', True)
+        case.problem('statevector-plain-vector:' + outcome,
+                     'get_statevector(ndarray) on a circuit with radixes '
+                     f'{rad}: {outcome} (a plain input vector must be '
+                     'interpreted with the circuit radixes)', True)
+    # malformed: a (normalised) vector of the wrong dimension -> ValueError
+    if rng.random() < .3:
+        bad_dim = dim + rng.choice([1, 2]) if rng.random() < .6 else \
+            max(1, dim - 1)
+        if bad_dim != dim:
+            e_bad = [Z1] + [Z0] * (bad_dim - 1)
+            r = call(lambda: np.array(c.get_statevector(exv_to_np(e_bad))))
+            if r != ('err', 'ValueError'):
+                case.problem('statevector-wrong-dimension',
+                             f'get_statevector with a vector of dimension '
+                             f'{bad_dim} on radixes {rad} gave {r[0]} '
+                             f'{r[1]!r:.40}', True)
+            if with_lean:
+                case.expect(f'state {cid} | {" ".join(map(gstr, e_bad))} | | -',
+                            'tensors1', r, 'state-baddim')
+            case.bump('state_baddim')
     if with_lean:
         case.expect(f'state {cid} | {" ".join(map(gstr, sv))} | | -',
                     'tensors1', s3_impl, 'state-plain')
@@ -1408,11 +1421,11 @@ def fixed_cases(ck: Check):
     ck.count(('fixed', 'sv-4-2'))
     if not close(got, want):
         ck.violation(
-            'statevector-plain-vector-mixed-radix:wrong-amplitudes',
+            'statevector-plain-vector:wrong-amplitudes',
             'Circuit(2,[4,2]) with X on qudit 1: get_statevector(e0) returns '
             f'|{int(np.argmax(np.abs(got)))}> but get_unitary() @ e0 is '
-            f'|{int(np.argmax(np.abs(want)))}> (StateVector(in_state) infers '
-            'qubit radixes from the dimension)',
+            f'|{int(np.argmax(np.abs(want)))}> (a plain vector must be read '
+            'with the circuit radixes)',
             {'radixes': [4, 2], 'ops': [['X', [1]]], 'in_state': 'e0'}, True)
     # replay of the Lean witness theorem on the real code is the case above;
     # permuted location on mixed radixes with a non-symmetric gate
@@ -1481,7 +1494,7 @@ def run(ck: Check):
             for i in range(nchunks)]
     ctx = mp.get_context('fork')
     tdrv = 0.0
-    with ctx.Pool(min(16, mp.cpu_count())) as pool:
+    with ctx.Pool(min(8, mp.cpu_count())) as pool:
         for res, t in pool.imap_unordered(run_chunk, jobs):
             tdrv += t
             for r in res:
